@@ -405,7 +405,7 @@ func assertedOnPath(p *BTPath) []*ssa.TypeAssert {
 func ruleBTWidth(c *Ctx, full bool) {
 	c.Rule("BT-WIDTH", "every accepting row of every codec builder pairs a Go kind with a codec whose methods view the destination as exactly that kind of object; all other kinds are rejected", 14)
 	c.Rule("BT-FIXED", "a fixed codec is built for a Go type only if it is a byte array whose length equals the schema's size, and carries that same size", 1)
-	c.Rule("BT-SUB", "a wrapper codec that forwards the destination pointer unchanged wraps a codec built for the same Go type", 3)
+	c.Rule("BT-SUB", "a wrapper codec that forwards the destination pointer unchanged wraps a codec built for the same Go type", 2)
 	P := c.P
 	e := getBT(P)
 	for _, b := range e.Builders {
